@@ -459,42 +459,53 @@ def run(rep: Report, prog: Program, tier: str) -> None:
         "redress.extras.pyodbc:pyodbc_classifier": "lit:[ group:5-5:[0-9,A-Z] lit:]",
         "redress.extras.sqlstate:sqlstate_classifier": "boundary group:5-5:[0-9,A-Z] boundary",
     }
+    def pattern_text(t: Any, mod: Any) -> str | None:
+        """the pattern string of a compiled-regex term: a module constant bound to `re.compile("...")`, or the
+        compile call itself at the point of use"""
+        node = None
+        if isinstance(t, tuple) and t[0] == "global" and isinstance(t[1], str) and ":" in t[1]:
+            mname, name = t[1].split(":", 1)
+            m2 = prog.modules.get(mname)
+            node = m2.assigns.get(name) if m2 is not None else None
+        elif isinstance(t, tuple) and t[0] in ("call", "pure"):
+            for x in subterms(t):
+                if isinstance(x, tuple) and x[0] == "const" and isinstance(x[1], str):
+                    return x[1]
+        if isinstance(node, ast.Call) and node.args and isinstance(node.args[0], ast.Constant) and isinstance(node.args[0].value, str) and ast.unparse(node.func).split(".")[-1] == "compile":
+            return node.args[0].value
+        return None
+
     for cq, shape in want_shape.items():
         cf = prog.func(cq)
-        extractors = set()
-        for n in prog._own_nodes(cf.node):
-            if isinstance(n, ast.Call):
-                for t in prog.resolve_call(n, cf):
-                    if t.kind == "repo" and t.func is not None and "extract" in t.func.name:
-                        extractors.add(t.func)
-        rep.instance("R19.6", f"{cq.split(':')[1]}|extractor", {"extractors": sorted(f.qual for f in extractors)})
-        if len(extractors) != 1:
-            rep.fail("R19.6", f"{cq.split(':')[1]}|extractor-count", f"{cq} calls {len(extractors)} SQLSTATE extractors ({sorted(f.qual for f in extractors)})", where=cf.where(), function=cq)
-            continue
+        # every regex operation the classifier performs, through whatever private extraction helpers it calls (they are
+        # read through: the obligation is on the pattern that reaches `.search`, wherever it is spelled or passed from)
+        eng = engine(prog)
+        inline0 = eng.inline
+        eng.inline = lambda f, inline0=inline0: bool(inline0 and inline0(f)) or (f.module.name.startswith("redress.extras") and f.name.startswith("_"))
+        try:
+            spaths = eng.paths(cf, raises=lambda ev, cfg: (), key="c19-sqlstate")
+        finally:
+            eng.inline = inline0
+        pats_set: set = set()
+        helpers: set = set()
+        for sp in spaths:
+            for e in sp.calls(pure=None):
+                res = e.result
+                name = res[1] if isinstance(res, tuple) and res[0] == "pure" else (e.lib() or "")
+                for fr in e.frames:
+                    helpers.add(fr[0].func.qual)
+                if name in (".search", ".match", ".findall", ".fullmatch", ".finditer") and e.recv is not None:
+                    pats_set.add((name[1:], pattern_text(e.recv, cf.module) or f"<{show(e.recv)}>"))
+                elif name in ("re.search", "re.match", "re.findall", "re.fullmatch") and e.args:
+                    a0 = e.args[0]
+                    pats_set.add((name.split(".")[-1], a0[1] if a0[0] == "const" and isinstance(a0[1], str) else f"<{show(a0)}>"))
+        pats = sorted(pats_set)
+        rep.instance("R19.6", f"{cq.split(':')[1]}|extractor", {"helpers": sorted(helpers)})
         rep.ok("R19.6")
-        ef = next(iter(extractors))
-        pats = []
-        for n in prog._own_nodes(ef.node):
-            if isinstance(n, ast.Attribute) and n.attr in ("search", "match", "findall") and isinstance(n.value, (ast.Name, ast.Call)):
-                if isinstance(n.value, ast.Call):
-                    val = n.value  # `re.compile(r"...").search(arg)`: the pattern spelled at the point of use
-                else:
-                    val = ef.module.assigns.get(n.value.id)
-                    if val is None:
-                        k, pp = prog.lookup_name(n.value.id, ef, ef.module)
-                        if k == "assign":
-                            val = pp[1]
-                        else:
-                            # a local bound once to the compiled pattern
-                            loc = [a.value for a in prog._own_nodes(ef.node) if isinstance(a, ast.Assign) and len(a.targets) == 1 and isinstance(a.targets[0], ast.Name) and a.targets[0].id == n.value.id]
-                            val = loc[0] if len(loc) == 1 else None
-                if isinstance(val, ast.Call) and val.args and isinstance(val.args[0], ast.Constant) and isinstance(val.args[0].value, str) and ast.unparse(val.func).split(".")[-1] == "compile":
-                    pats.append((n.attr, val.args[0].value))
-            elif isinstance(n, ast.Call) and ast.unparse(n.func) in ("re.search", "re.match") and n.args and isinstance(n.args[0], ast.Constant) and isinstance(n.args[0].value, str):
-                pats.append((ast.unparse(n.func).split(".")[-1], n.args[0].value))  # `re.search(r"...", arg)`
-        rep.instance("R19.6", f"{cq.split(':')[1]}|regex", {"extractor": ef.qual, "patterns": pats})
+        rep.instance("R19.6", f"{cq.split(':')[1]}|regex", {"patterns": pats})
+        ef = cf
         if len(pats) != 1 or pats[0][0] != "search":
-            rep.fail("R19.6", f"{cq.split(':')[1]}|regex-use", f"{ef.qual}: expected one `<compiled regex>.search(arg)`; found {pats}", where=ef.where(), function=ef.qual)
+            rep.fail("R19.6", f"{cq.split(':')[1]}|regex-use", f"{cq}: expected one `<compiled regex>.search(arg)` on its paths; found {pats}", where=cf.where(), function=cq)
             continue
         got_shape = regex_shape(pats[0][1])
         if got_shape == shape:
@@ -502,7 +513,17 @@ def run(rep: Report, prog: Program, tier: str) -> None:
         else:
             rep.fail("R19.6", f"{cq.split(':')[1]}|regex-shape|{got_shape[:50]}", f"{cq} extracts the SQLSTATE with /{pats[0][1]}/ (shape: {got_shape}); documented shape: {shape}", where=ef.where(), function=ef.qual)
         # group(1) of the first matching str argument, attribute first
-        okattr = any(isinstance(n, ast.Call) and isinstance(n.func, ast.Name) and n.func.id == "getattr" and len(n.args) >= 2 and isinstance(n.args[1], ast.Constant) and n.args[1].value == "sqlstate" for n in prog._own_nodes(cf.node))
+        def reads_attr(e: Any) -> bool:
+            res = e.result
+            return isinstance(res, tuple) and res[0] == "pure" and res[1] == "getattr" and len(e.args) >= 2 and e.args[1] == ("const", "sqlstate")
+
+        def attr_first(sp: SymPath) -> bool:
+            evs = sp.calls(pure=None)
+            ia = next((i for i, e in enumerate(evs) if reads_attr(e)), None)
+            ir = next((i for i, e in enumerate(evs) if isinstance(e.result, tuple) and e.result[0] == "pure" and e.result[1] in (".search", ".match", ".findall", ".fullmatch")), None)
+            return ia is not None and (ir is None or ia < ir)
+
+        okattr = bool(spaths) and all(attr_first(sp) for sp in spaths)
         rep.instance("R19.6", f"{cq.split(':')[1]}|attribute-first")
         if okattr:
             rep.ok("R19.6")
